@@ -1,0 +1,30 @@
+//go:build verif
+
+package sparseindex
+
+import "github.com/openGemini/openGemini/lib/record"
+
+// Thin wrappers for the C20 verification harness (build tag verif). No behaviour.
+
+// VerifCheckInAnyRange runs checkInAnyRange exactly as MayBeInRange does, with a caller-supplied call-back.
+func (kc *KeyConditionImpl) VerifCheckInAnyRange(usedKeySize int, left, right []*FieldRef, dataTypes []int,
+	cb func(rgs []*Range) (Mark, error)) (Mark, error) {
+	keyRgs := make([]*Range, 0, usedKeySize)
+	for i := 0; i < usedKeySize; i++ {
+		keyRgs = append(keyRgs, createWholeRangeWithoutBound())
+	}
+	return kc.checkInAnyRange(usedKeySize, left, right, true, true, keyRgs, dataTypes, 0, ConsiderOnlyBeTrue, cb)
+}
+
+// VerifRangeEnds exposes the ends of a range.
+func VerifRangeEnds(r *Range) (left, right *FieldRef, leftIncluded, rightIncluded bool) {
+	return r.left, r.right, r.leftIncluded, r.rightIncluded
+}
+
+// VerifFieldCell exposes the column and row a FieldRef points at (nil column for the infinity sentinels without columns).
+func VerifFieldCell(f *FieldRef) (*record.ColVal, int) {
+	if len(f.cols) == 0 {
+		return nil, f.row
+	}
+	return f.cols[f.column].column, f.row
+}
